@@ -44,6 +44,10 @@ class Forever(Exception):
         self.ev_index = ev_index
 
 
+# largest stack (in words) any check configures: 4 * hid.GEN_STACK
+MAX_HARNESS_STACK = 1024
+
+
 class Budget(Exception):
     pass
 
@@ -347,7 +351,11 @@ class Interp:
                     self.fault('stack_overflow')
                 raise ModelError('bad array length in unchecked build')
             if n > 4096:
-                raise ModelError('array larger than any stack the harness uses')
+                words = -(-(-(-n // 8) if el == BOOL else n if el == BYTE else n * self.W) // self.W)
+                if self.checked and words > MAX_HARNESS_STACK:
+                    # no stack the harness ever configures holds this array: a checked build must report it
+                    self.fault('stack_overflow')
+                raise Budget()      # too large to model: the run is counted as inconclusive
             self.frames[-1][-1][s[2]] = Arr(el, [None] * n)
         elif k == 'set':
             lv = s[1]
